@@ -25,13 +25,14 @@ type GenOpts struct {
 	ChromeInLeaf bool // nav / aside inside td, li, blockquote
 	NestedTable  bool // a table inside a cell
 	ABlock       bool // <a href> wrapping headings and paragraphs (transparent content model)
+	Bare         bool // text and inline elements (span, b, a) standing directly in a wrapper, between its blocks
 	Entities     bool // special characters behind tokens (Node.X)
 	Spelling     bool // per-node spelling bits (omitted end tags, quoting, case)
 
 	// Want, when set, is consulted each time the generator has drawn that it
 	// wants one of the optional features "li-p", "li-trailing", "li-section-list", "tfoot",
 	// "spans", "first-row-colspan", "chrome-in-leaf", "nested-table",
-	// "a-block", "headerless-table"; returning false vetoes that
+	// "a-block", "headerless-table", "bare-text"; returning false vetoes that
 	// single use (the harness passes vr.Want to switch off features tied to a
 	// known finding while counting the vetoed draws).
 	Want func(feature string, drawn bool) bool `json:"-"`
@@ -40,7 +41,7 @@ type GenOpts struct {
 // AllFeatures switches everything on.
 func AllFeatures() GenOpts {
 	return GenOpts{Chrome: true, Vocab: true, Links: true, Hidden: true, Lists: true, Tables: true, Spans: true,
-		Tfoot: true, LiP: true, LiTrailing: true, ChromeInLeaf: true, NestedTable: true, ABlock: true, Entities: true, Spelling: true}
+		Tfoot: true, LiP: true, LiTrailing: true, ChromeInLeaf: true, NestedTable: true, ABlock: true, Bare: true, Entities: true, Spelling: true}
 }
 
 // Vocabulary of the navigation filter under test, taken from its documentation
@@ -602,10 +603,31 @@ func (g *gen) wrapper(c ctx) *Node {
 	n := g.el(tag)
 	k := g.int(1, 3, "wn")
 	for i := 0; i < k; i++ {
+		if g.want("bare-text", g.o.Bare, g.chance(5, "bare")) {
+			n.Kids = append(n.Kids, g.bare())
+		}
 		n.Kids = append(n.Kids, g.block(sub))
+	}
+	if g.want("bare-text", g.o.Bare, g.chance(6, "bareTail")) {
+		n.Kids = append(n.Kids, g.bare())
 	}
 	g.maybeAttrs(n, true)
 	return n
+}
+
+// bare is inline content that stands directly in a wrapper: a text node, or text inside span, b or a
+func (g *gen) bare() *Node {
+	switch g.int(0, 3, "bareKind") {
+	case 0:
+		return g.el("span", g.text())
+	case 1:
+		return g.el("b", g.text())
+	case 2:
+		if g.o.Links && g.noLinks == 0 {
+			return g.link(g.text())
+		}
+	}
+	return g.text()
 }
 
 func (g *gen) block(c ctx) *Node {
